@@ -78,7 +78,7 @@ Theorem height_closed_form c data ix :
 Proof.
   intros Hb Hp He1 He64 Hne Hs Hkt Hlast Hn64 Hbuild Hsz.
   destruct (build_chain_gap c data ix (sentinel c) Hb ltac:(lia) He1 He64 Hne Hs Hkt Hlast Hn64
-              (float_ok_trivial c data) Hbuild Hsz) as (up & r0 & Hch & Hk0 & Eix & _ & _ & Hsh & _).
+              (float_ok_cap_of _ _ _ (float_ok_trivial c data)) Hbuild Hsz) as (up & r0 & Hch & Hk0 & Eix & _ & _ & Hsh & _).
   assert (Eh : height ix = Z.of_nat (length up) + 1).
   { unfold height. rewrite Eix. cbn [ix_offsets]. unfold zlen. rewrite offs_len, app_length. cbn [length]. lia. }
   rewrite Eh. split; [lia|]. intros H2.
